@@ -19,7 +19,8 @@ type loaderInfo struct {
 	loop       *ast.RangeStmt
 	single     *ast.FuncDecl // function that performs the cycle test + cache lookup
 	ancestorFd types.Object  // the map field tested by the cycle check
-	cycleIf    *ast.IfStmt
+	cycleCond  ast.Expr      // the membership test of the cycle check (condition of an if or of a tagless switch clause)
+	cycleNode  ast.Node
 }
 
 func analyseLoader(c *Ctx, rule string) *loaderInfo {
@@ -84,43 +85,34 @@ func analyseLoader(c *Ctx, rule string) *loaderInfo {
 			return true
 		})
 	}
-	// the cycle test: if M[k] { ... LoadError{Kind: ErrorCycleDetected ...} ... return }
-	for fd := range li.sccFuncs {
-		ast.Inspect(fd.Body, func(n ast.Node) bool {
-			ifs, ok := n.(*ast.IfStmt)
+	// the cycle test: a guard `M[k]` (if, or clause of a tagless switch) whose body builds a cycle error and returns
+	var sccList []*ast.FuncDecl
+	for _, fd := range fds {
+		if li.sccFuncs[fd] {
+			sccList = append(sccList, fd)
+		}
+	}
+	for _, fd := range sccList {
+		for _, g := range guardsIn(fd.Body) {
+			ix, ok := ast.Unparen(g.Cond).(*ast.IndexExpr)
 			if !ok {
-				return true
-			}
-			ix, ok := ast.Unparen(ifs.Cond).(*ast.IndexExpr)
-			if !ok {
-				return true
+				continue
 			}
 			if t := info.TypeOf(ix.X); t == nil {
-				return true
+				continue
 			} else if _, isMap := t.Underlying().(*types.Map); !isMap {
-				return true
+				continue
 			}
-			mentionsCycle := false
-			returns := false
-			ast.Inspect(ifs.Body, func(m ast.Node) bool {
-				if id, ok := m.(*ast.Ident); ok && id.Name == "ErrorCycleDetected" {
-					mentionsCycle = true
-				}
-				if _, ok := m.(*ast.ReturnStmt); ok {
-					returns = true
-				}
-				return true
+			mentionsCycle := stmtsContain(g.Body, func(m ast.Node) bool {
+				id, ok := m.(*ast.Ident)
+				return ok && id.Name == "ErrorCycleDetected"
 			})
+			returns := stmtsContain(g.Body, func(m ast.Node) bool { _, ok := m.(*ast.ReturnStmt); return ok })
 			if mentionsCycle && returns {
-				if se, ok := ast.Unparen(ix.X).(*ast.SelectorExpr); ok {
-					li.ancestorFd = info.Uses[se.Sel]
-				} else if id, ok := ast.Unparen(ix.X).(*ast.Ident); ok {
-					li.ancestorFd = info.Uses[id]
-				}
-				li.single, li.cycleIf = fd, ifs
+				li.ancestorFd = fieldObjOf(info, ix.X)
+				li.single, li.cycleCond, li.cycleNode = fd, g.Cond, g.Node
 			}
-			return true
-		})
+		}
 	}
 	if len(li.sccFuncs) == 0 || li.loop == nil || li.single == nil || li.ancestorFd == nil {
 		c.undecided(rule, "include", "include recursion", token.NoPos,
@@ -131,6 +123,38 @@ func analyseLoader(c *Ctx, rule string) *loaderInfo {
 }
 
 type pkgT = packagesPackage
+
+// typeReaches: a value of type t (transitively, through fields, elements and pointers of module types)
+// holds a value of the named type.
+func typeReaches(t types.Type, suffix string, seen map[types.Type]bool) bool {
+	if t == nil || seen[t] {
+		return false
+	}
+	seen[t] = true
+	if strings.HasSuffix(types.TypeString(t, nil), suffix) {
+		return true
+	}
+	switch u := t.Underlying().(type) {
+	case *types.Pointer:
+		return typeReaches(u.Elem(), suffix, seen)
+	case *types.Slice:
+		return typeReaches(u.Elem(), suffix, seen)
+	case *types.Array:
+		return typeReaches(u.Elem(), suffix, seen)
+	case *types.Map:
+		return typeReaches(u.Key(), suffix, seen) || typeReaches(u.Elem(), suffix, seen)
+	case *types.Struct:
+		if n, ok := t.(*types.Named); ok && n.Obj().Pkg() != nil && !strings.Contains(n.Obj().Pkg().Path(), "hledger-lsp") {
+			return false
+		}
+		for i := 0; i < u.NumFields(); i++ {
+			if typeReaches(u.Field(i).Type(), suffix, seen) {
+				return true
+			}
+		}
+	}
+	return false
+}
 
 func fieldObjOf(info *types.Info, e ast.Expr) types.Object {
 	switch x := ast.Unparen(e).(type) {
@@ -191,6 +215,54 @@ func pathAvoiding(g *cfg.CFG, from ast.Node, stop func(ast.Node) bool) bool {
 		return false
 	}
 	return visit(start.b, start.i+1)
+}
+
+// nodeCovers: CFG node x is (or contains) the expression e.
+func nodeCovers(x ast.Node, e ast.Node) bool {
+	return x.Pos() <= e.Pos() && e.End() <= x.End()
+}
+
+// mustPassBefore reports whether every path from the function entry to `target` passes a node satisfying
+// `stop` first.
+func mustPassBefore(g *cfg.CFG, target ast.Node, stop func(ast.Node) bool) bool {
+	if len(g.Blocks) == 0 {
+		return false
+	}
+	seen := map[*cfg.Block]bool{}
+	reached := false
+	var visit func(b *cfg.Block)
+	visit = func(b *cfg.Block) {
+		if seen[b] || reached {
+			return
+		}
+		seen[b] = true
+		for _, n := range b.Nodes {
+			// the stop node may itself contain the target (e.g. `if M[k] && f()`): evaluated first = passed
+			if stop(n) {
+				return
+			}
+			if nodeCovers(n, target) {
+				reached = true
+				return
+			}
+		}
+		for _, s := range b.Succs {
+			visit(s)
+		}
+	}
+	visit(g.Blocks[0])
+	if reached {
+		return false
+	}
+	// a target that is not part of the graph at all (inside a function literal) is not ordered by it
+	for _, b := range g.Blocks {
+		for _, n := range b.Nodes {
+			if nodeCovers(n, target) {
+				return true
+			}
+		}
+	}
+	return false
 }
 
 func containsCallTo(info *types.Info, n ast.Node, pred func(o types.Object, call *ast.CallExpr) bool) bool {
@@ -264,6 +336,7 @@ func ruleLoaderCycle(c *Ctx) {
 
 	// --- G-GUARD: every call into the recursion made by the function holding the cycle test is preceded by that test
 	sname := c.P.declName(li.single)
+	gSingle := cfgOf(li.single)
 	nRec := 0
 	ast.Inspect(li.single.Body, func(n ast.Node) bool {
 		call, ok := n.(*ast.CallExpr)
@@ -279,17 +352,8 @@ func ruleLoaderCycle(c *Ctx) {
 			return true
 		}
 		nRec++
-		// the cycle test is a top-level statement that precedes the statement containing the call
-		okG := false
-		for _, st := range li.single.Body.List {
-			if st == ast.Stmt(li.cycleIf) {
-				okG = true
-				break
-			}
-			if st.Pos() <= call.Pos() && call.End() <= st.End() {
-				break
-			}
-		}
+		// every path from the entry of the include step to the call evaluates the cycle test first
+		okG := mustPassBefore(gSingle, call, func(x ast.Node) bool { return nodeCovers(x, li.cycleCond) })
 		c.check(okG, "G-GUARD", sname, "recursion behind the cycle test", call.Pos(),
 			"the recursive load is only reached after the membership test that returns on a cycle",
 			"the recursive load can be reached without passing the cycle test first: a cyclic include graph recurses without bound")
@@ -300,20 +364,19 @@ func ruleLoaderCycle(c *Ctx) {
 	// --- G-ONCE: the "already loaded" set.  Role: a map tested by a top-level `if M[k] { return ... }` of the
 	// include step that is not the ancestor set.  A file is marked loaded exactly when it is recorded.
 	var loadedFd types.Object
-	var loadedIf *ast.IfStmt
-	for _, st := range li.single.Body.List {
-		ifs, ok := st.(*ast.IfStmt)
-		if !ok || ifs == li.cycleIf {
+	var loadedCond ast.Expr
+	for _, g := range guardsIn(li.single.Body) {
+		if g.Cond == li.cycleCond {
 			continue
 		}
-		ix, ok := ast.Unparen(ifs.Cond).(*ast.IndexExpr)
+		ix, ok := ast.Unparen(g.Cond).(*ast.IndexExpr)
 		if !ok {
 			continue
 		}
 		if t := info.TypeOf(ix.X); t != nil {
-			if _, isMap := t.Underlying().(*types.Map); isMap && len(ifs.Body.List) == 1 {
-				if _, isRet := ifs.Body.List[0].(*ast.ReturnStmt); isRet && fieldObjOf(info, ix.X) != li.ancestorFd {
-					loadedFd, loadedIf = fieldObjOf(info, ix.X), ifs
+			if _, isMap := t.Underlying().(*types.Map); isMap && len(g.Body) == 1 {
+				if _, isRet := g.Body[0].(*ast.ReturnStmt); isRet && fieldObjOf(info, ix.X) != li.ancestorFd {
+					loadedFd, loadedCond = fieldObjOf(info, ix.X), g.Cond
 				}
 			}
 		}
@@ -337,8 +400,8 @@ func ruleLoaderCycle(c *Ctx) {
 	if loadedFd == nil {
 		c.finding("G-ONCE", sname, "already-loaded test", li.single.Pos(), "the include step has no test of a set of already loaded files: a file reached along two acyclic paths is loaded and listed twice")
 	} else {
-		c.ok("G-ONCE", sname, "already-loaded test", loadedIf.Pos(), "a file already part of the result is skipped without an error")
-		g := cfgOf(li.single)
+		c.ok("G-ONCE", sname, "already-loaded test", loadedCond.Pos(), "a file already part of the result is skipped without an error")
+		g := gSingle
 		nMark := 0
 		ast.Inspect(li.single.Body, func(n ast.Node) bool {
 			as, ok := n.(*ast.AssignStmt)
@@ -356,22 +419,21 @@ func ruleLoaderCycle(c *Ctx) {
 				"a file is marked as loaded on a path that can still return without recording it (missing, oversized or too deep): later include directives naming it are silently skipped and a reachable file is missing from the result")
 			return true
 		})
-		// every store into Files is preceded by a mark: the Files store statement follows a mark at top level
+		// every store into Files is preceded, on every path, by the already-loaded test and by the mark
+		isLoadedMark := func(x ast.Node) bool {
+			as, ok := x.(*ast.AssignStmt)
+			if !ok || len(as.Lhs) != 1 {
+				return false
+			}
+			ix, ok := ast.Unparen(as.Lhs[0]).(*ast.IndexExpr)
+			return ok && fieldObjOf(info, ix.X) == loadedFd
+		}
 		ast.Inspect(li.single.Body, func(n ast.Node) bool {
 			if st, ok := n.(*ast.AssignStmt); ok && isFilesStore(st) {
-				marked := false
-				for _, top := range li.single.Body.List {
-					if top.Pos() >= st.Pos() {
-						break
-					}
-					if as, ok := top.(*ast.AssignStmt); ok && len(as.Lhs) == 1 {
-						if ix, ok := ast.Unparen(as.Lhs[0]).(*ast.IndexExpr); ok && fieldObjOf(info, ix.X) == loadedFd {
-							marked = true
-						}
-					}
-				}
-				c.check(marked && loadedIf.Pos() < st.Pos(), "G-ONCE", sname, "recorded only once", st.Pos(),
-					"recording a file is preceded by the already-loaded test and the mark", "a file is recorded in the result without being marked as loaded first: it can be recorded again through another include path")
+				marked := mustPassBefore(g, st, isLoadedMark)
+				tested := mustPassBefore(g, st, func(x ast.Node) bool { return nodeCovers(x, loadedCond) })
+				c.check(marked && tested, "G-ONCE", sname, "recorded only once", st.Pos(),
+					"recording a file is preceded by the already-loaded test and the mark", "a file is recorded in the result without being tested against and marked in the set of loaded files first: it can be recorded again through another include path")
 			}
 			return true
 		})
@@ -447,6 +509,9 @@ func ruleLoaderCycle(c *Ctx) {
 			t := info.TypeOf(cl)
 			if t == nil || !strings.HasSuffix(types.TypeString(t, nil), "include.LoadError") {
 				return true
+			}
+			if _, isStruct := t.Underlying().(*types.Struct); !isStruct {
+				return true // a slice literal of errors: its elements are visited on their own
 			}
 			nErr++
 			hasRange := false
@@ -596,7 +661,7 @@ func ruleLoaderCache(c *Ctx) {
 		for i := 0; st != nil && i < st.NumFields(); i++ {
 			if m, ok := st.Field(i).Type().Underlying().(*types.Map); ok {
 				vs := types.TypeString(m.Elem(), nil)
-				c.check(!strings.Contains(vs, "ResolvedJournal"), "G-CACHEPATH", "include.Loader", "cache holds per-file parse results only", st.Field(i).Pos(),
+				c.check(!typeReaches(m.Elem(), "include.ResolvedJournal", map[types.Type]bool{}), "G-CACHEPATH", "include.Loader", "cache holds per-file parse results only", st.Field(i).Pos(),
 					"cache value type "+shortQual(vs)+" does not embed a resolved include tree",
 					"the loader caches resolved include trees ("+shortQual(vs)+"): a cached subtree goes stale when a file below it changes")
 			}
@@ -606,25 +671,77 @@ func ruleLoaderCache(c *Ctx) {
 	// are taken outside any branch on the outcome of the cache lookup.
 	var cacheVars []types.Object
 	sname := c.P.declName(li.single)
+	// the cache: a map field of the loader that is read by the include step, directly or in a helper it calls
+	// (functions on the include recursion itself are not helpers of the step).
+	var cacheField types.Object
+	isCacheLookup := func(finfo *types.Info, e ast.Expr) (types.Object, bool) {
+		ix, ok := ast.Unparen(e).(*ast.IndexExpr)
+		if !ok {
+			return nil, false
+		}
+		se, ok := ast.Unparen(ix.X).(*ast.SelectorExpr)
+		if !ok {
+			return nil, false
+		}
+		if t := finfo.TypeOf(se.X); t == nil || !strings.HasSuffix(types.TypeString(t, nil), "include.Loader") {
+			return nil, false
+		}
+		if _, isMap := finfo.TypeOf(ix.X).Underlying().(*types.Map); !isMap {
+			return nil, false
+		}
+		return finfo.Uses[se.Sel], true
+	}
+	var lookupHelper func(fd *ast.FuncDecl, depth int) bool
+	lookupHelper = func(fd *ast.FuncDecl, depth int) bool {
+		if fd == nil || fd.Body == nil || li.sccFuncs[fd] || depth > 3 {
+			return false
+		}
+		found := false
+		ast.Inspect(fd.Body, func(n ast.Node) bool {
+			switch x := n.(type) {
+			case *ast.AssignStmt:
+				for _, r := range x.Rhs {
+					if f, ok := isCacheLookup(info, r); ok {
+						cacheField = f
+						found = true
+					}
+				}
+			case *ast.CallExpr:
+				if o, ok := calleeOf(info, x).(*types.Func); ok {
+					if d := c.P.declOf[o]; d != nil && c.P.pkgOf[d] == li.pk && lookupHelper(d, depth+1) {
+						found = true
+					}
+				}
+			}
+			return true
+		})
+		return found
+	}
+	bindLhs := func(as *ast.AssignStmt) {
+		for _, l := range as.Lhs {
+			if id, ok := l.(*ast.Ident); ok && id.Name != "_" {
+				if o := info.Defs[id]; o != nil {
+					cacheVars = append(cacheVars, o)
+				} else if o := info.Uses[id]; o != nil {
+					cacheVars = append(cacheVars, o)
+				}
+			}
+		}
+	}
 	ast.Inspect(li.single.Body, func(n ast.Node) bool {
 		as, ok := n.(*ast.AssignStmt)
 		if !ok || len(as.Rhs) != 1 {
 			return true
 		}
-		ix, ok := ast.Unparen(as.Rhs[0]).(*ast.IndexExpr)
-		if !ok {
+		if f, ok := isCacheLookup(info, as.Rhs[0]); ok {
+			cacheField = f
+			bindLhs(as)
 			return true
 		}
-		if se, ok := ast.Unparen(ix.X).(*ast.SelectorExpr); ok {
-			if t := info.TypeOf(se.X); t != nil && strings.HasSuffix(types.TypeString(t, nil), "include.Loader") {
-				for _, l := range as.Lhs {
-					if id, ok := l.(*ast.Ident); ok {
-						if o := info.Defs[id]; o != nil {
-							cacheVars = append(cacheVars, o)
-						} else if o := info.Uses[id]; o != nil {
-							cacheVars = append(cacheVars, o)
-						}
-					}
+		if call, ok := ast.Unparen(as.Rhs[0]).(*ast.CallExpr); ok {
+			if o, ok := calleeOf(info, call).(*types.Func); ok {
+				if d := c.P.declOf[o]; d != nil && c.P.pkgOf[d] == li.pk && lookupHelper(d, 0) {
+					bindLhs(as)
 				}
 			}
 		}
@@ -646,6 +763,10 @@ func ruleLoaderCache(c *Ctx) {
 		return dep
 	}
 	nVerdict := 0
+	isGuardCond := map[ast.Expr]bool{}
+	for _, g := range guardsIn(li.single.Body) {
+		isGuardCond[ast.Unparen(g.Cond)] = true
+	}
 	ast.Inspect(li.single.Body, func(n ast.Node) bool {
 		var what string
 		switch x := n.(type) {
@@ -655,12 +776,11 @@ func ruleLoaderCache(c *Ctx) {
 					what = "depth-limit test"
 				}
 			}
-		case *ast.IfStmt:
-			if ix, ok := ast.Unparen(x.Cond).(*ast.IndexExpr); ok {
-				if t := info.TypeOf(ix.X); t != nil {
+		case *ast.IndexExpr:
+			if isGuardCond[x] {
+				if t := info.TypeOf(x.X); t != nil {
 					if m, isMap := t.Underlying().(*types.Map); isMap && types.TypeString(m.Elem(), nil) == "bool" {
-						what = "membership test " + exprStr(c.P.Fset, x.Cond)
-						n = x.Cond
+						what = "membership test " + exprStr(c.P.Fset, x)
 					}
 				}
 			}
@@ -691,11 +811,11 @@ func ruleLoaderCache(c *Ctx) {
 			switch f.Type().Underlying().(type) {
 			case *types.Map, *types.Slice, *types.Pointer, *types.Chan, *types.Interface:
 				nState++
+				// role: the map read by the include step's cache lookup, keyed by a string (the file path)
 				isParseCache := false
-				if m, ok := f.Type().Underlying().(*types.Map); ok {
+				if m, ok := f.Type().Underlying().(*types.Map); ok && cacheField != nil && types.Object(f) == cacheField {
 					if b, ok := m.Key().Underlying().(*types.Basic); ok && b.Kind() == types.String {
-						es := types.TypeString(m.Elem(), nil)
-						isParseCache = strings.HasSuffix(es, "include.cachedJournal") || strings.HasSuffix(es, "ast.Journal")
+						isParseCache = true
 					}
 				}
 				if isParseCache {
